@@ -212,9 +212,10 @@ void ps5_sample_sort_lcp(const Context& ctx, const Classify& classifier,
                          const StringPtr& strptr, size_t depth,
                          const BktSizeType* bkt)
 {
-    assert(!strptr.flipped());
-
-    const typename StringPtr::StringSet& strset = strptr.active();
+    // all buckets are sorted: the strings are back in the original array,
+    // which is the shadow array if this sort step works on a flipped range.
+    const typename StringPtr::StringSet& strset =
+        strptr.flipped() ? strptr.shadow() : strptr.active();
     typedef typename Context::key_type key_type;
 
     size_t b = 0;         // current bucket number
